@@ -17,6 +17,9 @@ const RENDER_CHANNELS: [&str; 13] = [
 const TEMPLATE_CHANNELS: [&str; 9] =
     ["display", "to_value", "to_value-serde", "serde-json", "serde-collect", "sval", "sval-ref", "sval-json", "debug"];
 
+/// spec/Template.tla DebugDontCare: Debug of a text with escapable characters is not compared
+const DEBUG_DONT_CARE: &str = "<<debug: don't-care>>";
+
 fn bracket(v: emit::Value, f: &mut fmt::Formatter) -> fmt::Result {
     write!(f, "[{}]", v)
 }
@@ -189,6 +192,7 @@ fn main() {
         .collect();
     let mut rep = Report::new();
     let mut per_kind: std::collections::BTreeMap<String, u64> = Default::default();
+    let mut debug_obs: std::collections::BTreeMap<String, u64> = Default::default();
     for_each_case(cases, |_, case| {
         rep.cases += 1;
         let texts: Vec<(bool, String, bool)> = case["parts"]
@@ -237,6 +241,10 @@ fn main() {
                 rep.checks += 1;
                 match catch(|| template_via(ch, tpl)) {
                     Ok(got) if got == want => {}
+                    Ok(got) if want == DEBUG_DONT_CARE => {
+                        let escaped = format!("{:?}", tpl.to_string());
+                        *debug_obs.entry(if got == escaped { "escaped" } else if got == format!("\"{}\"", tpl) { "quoted-not-escaped" } else { "other" }.to_string()).or_insert(0) += 1;
+                    }
                     Ok(got) => mm(&mut rep, "template-channel-differs", json!({"repr": kind, "channel": ch, "want": want, "got": got})),
                     Err(p) => mm(&mut rep, "template-channel-panic", json!({"repr": kind, "channel": ch, "panic": p})),
                 }
@@ -266,6 +274,10 @@ fn main() {
                     rep.checks += 1;
                     match catch(|| render_via(ch, tpl, &pv)) {
                         Ok(got) if got == want => {}
+                        Ok(got) if want == DEBUG_DONT_CARE => {
+                            let text = tpl.render(&pv[..]).to_string();
+                            *debug_obs.entry(if got == format!("{:?}", text) { "escaped" } else if got == format!("\"{}\"", text) { "quoted-not-escaped" } else { "other" }.to_string()).or_insert(0) += 1;
+                        }
                         Ok(got) => mm(&mut rep, "render-channel-differs", json!({"repr": kind, "channel": ch, "props": props, "want": want, "got": got})),
                         Err(p) => mm(&mut rep, "render-channel-panic", json!({"repr": kind, "channel": ch, "props": props, "panic": p})),
                     }
@@ -273,5 +285,6 @@ fn main() {
             }
         }
     });
+    rep.extra.insert("debug_of_escapable_text".into(), json!(debug_obs));
     rep.write(out);
 }
